@@ -17,13 +17,6 @@
    ancestor) was redefined, accessors no class of the list declares. *)
 From C12 Require Import Model.
 
-(* keep the first occurrence *)
-Fixpoint kf (seen l : list nat) : list nat :=
-  match l with
-  | [] => []
-  | x :: r => if memb x seen then kf seen r else x :: kf (x :: seen) r
-  end.
-Definition dedup (l : list nat) : list nat := kf [] l.
 Fixpoint all_some {A} (l : list (option A)) : option (list A) :=
   match l with
   | [] => Some []
@@ -221,30 +214,12 @@ Definition supers_ready (w : world) (supers : list nat) : bool :=
   forallb (fun s => match lookup (reg w) s with Some id => readyb w id | None => false end) supers.
 Fixpoint nodupb (l : list nat) : bool :=
   match l with [] => true | x :: r => negb (memb x r) && nodupb r end.
-(* classChanged merges a class only when each of its direct supers is registered and ready and is either
-   not to be merged itself or has been merged before *)
-Fixpoint topo_ok (w : world) (n : nat) (done corder : list nat) : bool :=
-  match corder with
-  | [] => true
-  | id :: r =>
-      (if inherits w id n then
-         match get w id with
-         | None => false
-         | Some c => forallb (fun d => match lookup (reg w) d with
-                                       | None => false
-                                       | Some did => readyb w did && (negb (inherits w did n) || memb did done)
-                                       end) (co_supers c)
-         end
-       else true) && topo_ok w n (id :: done) r
-  end.
-Definition cache_keys (w : world) : list nat := flat_map (fun kg => map fst (g_cache (snd kg))) (gfs w).
 
 Definition g_defclass (w : world) (n : nat) (supers : list nat) (slots : list slotdef) (rorder corder : list nat) : bool :=
   let wr := defclass_reg w n supers slots in
   let pre := defclass_pre w n supers slots rorder in
-  (* the shape of the form: user class names, direct superclasses distinct, slot names distinct, no initarg on
-     two slots of the form *)
-  forallb (fun c => Nat.ltb c SO) (n :: supers) && nodupb supers && nodupb (map sd_name slots) && nodupb (map fst (slot_initargs slots))
+  (* the shape of the form: user class names, direct superclasses distinct, slot names distinct *)
+  forallb (fun c => Nat.ltb c SO) (n :: supers) && nodupb supers && nodupb (map sd_name slots)
   (* the iteration orders are orders of the registered classes *)
   && forallb (fun id => memb id rorder) (reg_ids wr) && forallb (fun id => memb id (reg_ids wr)) rorder
   && forallb (fun id => memb id corder) (sub_ids pre n) && forallb (fun id => memb id (reg_ids pre)) corder
@@ -256,15 +231,9 @@ Definition g_defclass (w : world) (n : nat) (supers : list nat) (slots : list sl
            let bad := n :: flat_map (fun id => match name_of w id with Some m => [m] | None => [] end) subs in
            (* no superclass of the new definition inherits the class being redefined *)
            forallb (fun d => negb (memb d bad)) supers
-           (* superclasses (the new definition of n included) are ready, and merged again before their subclasses *)
-           && topo_ok pre n [] corder
-           (* no generic has cached a dispatch for the class or an inheriting class *)
-           && forallb (fun k => negb (memb k bad)) (cache_keys w)
          else true
      end.
 
-Definition initarg_slots (ia : list (nat * nat)) (k : nat) : list nat :=
-  dedup (map snd (filter (fun p => Nat.eqb (fst p) k) ia)).
 Definition g_make (w : world) (n : nat) (args : list (nat * Z)) : bool :=
   nodupb (map fst args) &&
   match lookup (reg w) n with
@@ -274,9 +243,8 @@ Definition g_make (w : world) (n : nat) (args : list (nat * Z)) : bool :=
       | None => true
       | Some c =>
           let ia := mk_initargs (heap w) (co_slots c) (co_inherit c) in
-          (* a supplied initarg names one slot only; two supplied initargs never name the same slot *)
-          forallb (fun kv => Nat.leb (length (initarg_slots ia (fst kv))) 1) args
-          && nodupb (flat_map (fun kv => initarg_slots ia (fst kv)) args)
+          (* two supplied initargs never name the same slot *)
+          nodupb (flat_map (fun kv => initarg_slots ia (fst kv)) args)
       end
   end.
 (* the instance's class object is the one registered under its name *)
